@@ -439,6 +439,9 @@ func racePhase(rep *report, seed uint64, models, nops, only int, scratch string)
 		t := newOpTable(w)
 		roots := w.roots()
 		rep.counters["race_models"]++
+		if w.extremeTimings > 0 {
+			rep.counters["race_models_with_out_of_range_timings"]++
+		}
 		shared := sharedness(w)
 		for _, T := range threadCounts {
 			lists := make([][]roOp, T)
